@@ -38,6 +38,8 @@ func errWord(err error) string {
 		return "codec-error-1"
 	case errHCut2:
 		return "codec-error-2"
+	case errHFailClose:
+		return "codec-error-3"
 	}
 	if w := rac.VerifErrWord(err); w != "" {
 		return w
@@ -778,6 +780,8 @@ type wcfg struct {
 	codec          rac.Codec
 	oob, cancut    bool
 	nilw           bool
+	nilcw          bool // nil CodecWriter
+	failClose      bool // the CodecWriter's Close fails
 	res            [][]byte
 }
 
@@ -790,7 +794,11 @@ func (c wcfg) opLine() string {
 		}
 		rs = strings.Join(parts, ",")
 	}
-	return fmt.Sprintf("w %d %d %d %d %d %d %d %d %d %d %s", c.loc, c.cps, c.tempKind, c.failAt, c.cchunk, c.dchunk, uint64(c.codec), b2i(c.oob), b2i(c.cancut), b2i(c.nilw), rs)
+	nilw := b2i(c.nilw)
+	if c.nilcw {
+		nilw = 2
+	}
+	return fmt.Sprintf("w %d %d %d %d %d %d %d %d %d %d %s %d", c.loc, c.cps, c.tempKind, c.failAt, c.cchunk, c.dchunk, uint64(c.codec), b2i(c.oob), b2i(c.cancut), nilw, rs, b2i(c.failClose))
 }
 
 func (c wcfg) mode() string {
@@ -813,13 +821,17 @@ func (h *H) writerRun(c wcfg, payload []byte, parts []int) {
 	op("reset", "ok")
 	op(c.opLine(), "ok")
 	s := newSinks(c.tempKind, c.failAt, h.rng.Intn(9))
+	hcw := &HCodecWriter{Codec: c.codec, OOB: c.oob, Cut_: c.cancut, FailClose: c.failClose}
 	w := &rac.Writer{
-		CodecWriter:   &HCodecWriter{Codec: c.codec, OOB: c.oob, Cut_: c.cancut},
+		CodecWriter:   hcw,
 		IndexLocation: rac.IndexLocation(c.loc), TempFile: s.temp, CPageSize: c.cps,
 		CChunkSize: c.cchunk, DChunkSize: c.dchunk, ResourcesData: c.res,
 	}
 	if !c.nilw {
 		w.Writer = s.w
+	}
+	if c.nilcw {
+		w.CodecWriter = nil
 	}
 	var firstErr error
 	replay := func() string { return strings.Join(trace, "\n") }
@@ -965,6 +977,8 @@ func (h *H) genCfg() wcfg {
 	}
 	c.oob = h.rng.Chance(1, 3)
 	c.nilw = h.rng.Chance(1, 100)
+	c.nilcw = !c.nilw && h.rng.Chance(1, 100)
+	c.failClose = h.rng.Chance(1, 50)
 	for i := h.rng.Intn(4); i > 0; i-- {
 		c.res = append(c.res, h.rng.Bytes(h.rng.Intn(12)))
 	}
@@ -1027,7 +1041,7 @@ func (h *H) writerRuns(n int) {
 	}
 	for _, sz := range bigs {
 		c := h.genCfg()
-		c.failAt, c.nilw, c.cancut, c.cps = 0, false, true, 4096
+		c.failAt, c.nilw, c.nilcw, c.failClose, c.cancut, c.cps = 0, false, false, false, true, 4096
 		c.cchunk, c.dchunk = 4096, 0
 		c.loc, c.tempKind = 1, 2
 		h.writerRun(c, h.payload(sz, 5, 4096), h.partition(sz, 9))
@@ -1322,6 +1336,13 @@ func (h *H) corpus() {
 	// useResource with the out-of-range "no resource" index len(ResourcesData)
 	c = wcfg{dchunk: 4, codec: hShort, cancut: true, oob: true}
 	h.writerRun(c, []byte{1, 1, 1, 1}, []int{4})
+	// a nil CodecWriter: Write reports errInvalidCodecWriter; Close called the nil interface's Close
+	c = wcfg{codec: hShort, cancut: true, nilcw: true}
+	h.writerRun(c, []byte{1}, []int{1})
+	h.writerRun(c, nil, nil)
+	// the CodecWriter's own Close fails: reported by Writer.Close
+	c = wcfg{dchunk: 4, codec: hShort, cancut: true, failClose: true}
+	h.writerRun(c, []byte{1, 2, 3, 4, 5}, []int{2, 3})
 }
 
 func main() {
